@@ -60,7 +60,9 @@ func (db *DB) checkAndCleanFiles() error {
 		keep := true
 		switch fd.Type {
 		case storage.TypeManifest:
-			keep = fd.Num >= db.s.manifestFd.Num
+			// Only the manifest of this run is live (a rotation that crashed
+			// before switching CURRENT leaves one with a higher number).
+			keep = fd.Num == db.s.manifestFd.Num
 		case storage.TypeJournal:
 			if !db.frozenJournalFd.Zero() {
 				keep = fd.Num >= db.frozenJournalFd.Num
